@@ -14,6 +14,8 @@ mod c02_utf8;
 #[cfg(kani)]
 mod c04_decoder;
 #[cfg(kani)]
+mod c05_editor;
+#[cfg(kani)]
 mod c17_scalars;
 #[cfg(kani)]
 mod c07_tokens;
